@@ -141,9 +141,10 @@ KNOWN_QUALS = {"onmatch", "nocontrib", "asbool", "notnone", "latch", "onchange",
 
 
 class Interp:
-    def __init__(self, comps, mode_and=True):
+    def __init__(self, comps, mode_and=True, policy=("collect",)):
         self.comps = comps
         self.AND = mode_and
+        self.policy = set(policy)
         self.vars = {}
         self.scan_count = 0
         self.match_count = 0
@@ -214,9 +215,11 @@ class Interp:
         for k, c in enumerate(self.comps):
             if self.stopped:
                 self.trace.append(tr)
+                self._handle_line_errors()
                 return False
             if self.skip:
                 self.trace.append(tr)
+                self._handle_line_errors()
                 return False
             v = self._vote_component(k)
             if self.AND:
@@ -226,10 +229,19 @@ class Interp:
                 if v is True:
                     failed = False
         self.trace.append(tr)
+        self._handle_line_errors()
         if self.skip:
             # skip() fired in the final component: the line is not matched (docs/functions/stop.md)
             return False
         return not failed
+
+    def _handle_line_errors(self):
+        """errors of a line are handled when the line has been evaluated: 'fail' makes the run invalid, 'stop' stops it (C04, C05)."""
+        if any(e[0] == self.i for e in self.errors):
+            if "fail" in self.policy:
+                self.valid = False
+            if "stop" in self.policy:
+                self.stopped = True
 
     def _vote_component(self, k):
         if self.votes[k] is not None:
@@ -532,6 +544,40 @@ class Interp:
             self.stopped = True
             self.valid = False
         return self.neutral()
+
+    def m_fail_all(self, n, q, a):
+        self.valid = False
+        return self.neutral()
+
+    # math (docs/functions/subtract.md: "Numbers are upcast to floats before the operations"; None counts as 0)
+    def _nums(self, a):
+        out = []
+        for x in a:
+            v = self.value(x)
+            if is_none(v):
+                v = 0
+            out.append(float(to_num(v)))
+        return out
+
+    def v_add(self, n, q, a):
+        return float(sum(self._nums(a)))
+
+    def v_subtract(self, n, q, a):
+        ns = self._nums(a)
+        if len(ns) == 1:
+            return -ns[0]
+        r = ns[0]
+        for x in ns[1:]:
+            r -= x
+        return r
+
+    v_minus = v_subtract
+
+    def v_multiply(self, n, q, a):
+        r = 1.0
+        for x in self._nums(a):
+            r *= x
+        return r
 
     def m_valid(self, n, q, a):
         return self.valid
